@@ -358,7 +358,9 @@ def r14_6(ctx):
             px = PX(repo, models=[("self.networkState", Outcomes(OK((repo.cls(NAMED, "EmberNetworkStatus").members()["NO_NETWORK"],)))),
                                   ("self.setValue", Outcomes(OK((repo.cls(NAMED, "EmberStatus").members()["SUCCESS"],))))],
                     inline=same_class())
-            for p in px.explore(m, lambda: (self_obj(c, {}), {"frame_counter": 0x01020304})):
+            # 0 is a valid counter (a fresh network's backup): the NCP keeps the previous network's counter unless it is written
+            for counter in (0x01020304, 0, 0xFFFFFFFF):
+              for p in px.explore(m, lambda: (self_obj(c, {}), {"frame_counter": counter})):
                 sv = [e for e in p.events if e.kind == "await" and e.what == "self.setValue"]
                 if v == 4:
                     ctx.require(not sv and p.terminal == "return", f"{meth}:v4", "v4 cannot store frame counters but issues a write", func=m)
@@ -366,8 +368,9 @@ def r14_6(ctx):
                     vid = sv[0].kwargs.get("valueId") if sv else None
                     val = sv[0].kwargs.get("value") if sv else None
                     ok = (len(sv) == 1 and isinstance(vid, Member) and vid.name.endswith(want) and isinstance(val, (bytes, bytearray))
-                          and bytes(val) == (0x01020304).to_bytes(4, "little") and p.terminal == "return")
-                    ctx.require(ok, f"{meth}:v{v}", f"v{v} {meth}: setValue({vid!r}, {val!r}); must set *{want} to the 32-bit little-endian counter", func=m)
+                          and bytes(val) == counter.to_bytes(4, "little") and p.terminal == "return")
+                    ctx.require(ok, f"{meth}:v{v}:{'zero' if counter == 0 else 'value'}", f"v{v} {meth}({counter:#x}): setValue({vid!r}, {val!r}); must set *{want} to the 32-bit "
+                                "little-endian counter, whatever its value", func=m)
         if v >= 13:
             m = c.method("get_network_key")
             sl = repo.cls(NAMED, "sl_Status").members()["OK"]
@@ -382,3 +385,56 @@ def r14_6(ctx):
                       and z.fields.get("seq") == Sym("info.seq"))
                 ctx.require(ok, f"get_network_key:v{v}", f"v{v} get_network_key returns {z!r:.120}; key/tx_counter/seq must come from the exported key and the key "
                             "info's frame counter / sequence number", func=m)
+
+
+@rule("R14.9", ["C14"], "T-FUN", floor=11)
+def r14_9(ctx):
+    """Link-key table read-back with a gap: in every version, for a key table of three slots of which the middle one is
+    empty (the NCP refused that entry on restore, or it was erased), read_link_keys yields exactly the keys of the first
+    and the third slot, in that order, each with the data of its own slot; an empty slot is skipped, it does not end the
+    read (keys are written by index, so a refused entry leaves a gap in front of the entries that follow)."""
+    repo = ctx.repo
+    es = repo.cls(NAMED, "EmberStatus").members()
+    ez = repo.cls(NAMED, "EzspStatus").members()
+    sl = repo.cls(NAMED, "sl_Status").members()
+    for v in VERSIONS:
+        c = repo.cls(f"bellows.ezsp.v{v}", f"EZSPv{v}")
+        m = c.method("read_link_keys")
+        ctx.fn(m)
+        cmds = repo.get(f"bellows.ezsp.v{v}.commands", "COMMANDS")
+        cfg_rx = cmds["getConfigurationValue"][2]
+        cfg_ok = sl["OK"] if getattr(list(cfg_rx.values())[0], "name", "") == "sl_Status" else ez["SUCCESS"]
+
+        def answer(px_, t, a, k, fr, cmds=cmds, v=v):
+            rx = cmds[t.rsplit(".", 1)[-1]][2]
+            i = k.get("index", a[0] if a else None)
+            i = int(i) if isinstance(i, int) else None
+            if i not in (0, 1, 2):
+                raise AnalysisError(f"read_link_keys asks for slot {i!r}")
+            empty = i == 1
+            st_t = getattr(rx.get("status"), "name", "")
+            status = (sl["NOT_FOUND"] if empty else sl["OK"]) if st_t == "sl_Status" else (es["TABLE_ENTRY_ERASED"] if empty else es["SUCCESS"])
+            vals = {"status": status, "eui64": Sym(f"eui{i}"), "plaintext_key": Sym(f"key{i}"), "keyStruct": Sym(f"keystruct{i}"),
+                    "key_data": Obj(TypeRef("KeyData"), {"outgoing_frame_counter": Sym(f"tx{i}"), "incoming_frame_counter": Sym(f"rx{i}")}, tag=f"kd{i}"),
+                    "context": Obj(TypeRef("Context"), {"eui64": Sym(f"eui{i}")}, tag=f"ctx{i}")}
+            missing = [n for n in rx if n not in vals]
+            if missing:
+                raise AnalysisError(f"v{v} key read response has fields {missing} this rule has no value for")
+            return tuple(vals[n] for n in rx)
+
+        px = PX(repo, inline=same_class(),
+                models=[("self.getConfigurationValue", Outcomes(OK((cfg_ok, 3)))), ("self.exportLinkKeyByIndex", answer), ("self.getKeyTableEntry", answer),
+                        ("ezsp_key_to_zigpy_key", lambda px_, t, a, k, fr: Sym(f"zigpy({getattr(a[0], 'tag', a[0])})")),
+                        ("util.ezsp_key_to_zigpy_key", lambda px_, t, a, k, fr: Sym(f"zigpy({getattr(a[0], 'tag', a[0])})"))])
+        for p in px.explore(m, lambda: (self_obj(c, {}), {})):
+            ctx.paths += 1
+            ys = [e for e in p.events if e.kind == "yield"]
+            got = []
+            for e in ys:
+                val = e.args[0] if e.args else None
+                src = next((x for x in p.events if x.kind in ("call", "new") and x.extra is not None and x.extra == val), None)
+                desc = repr(val) + repr(src.kwargs if src is not None else "")
+                got.append(next((i for i in (0, 1, 2) if f"key{i}" in desc or f"keystruct{i}" in desc), None))
+            ctx.require(p.terminal == "return" and got == [0, 2], f"gap:v{v}", f"v{v} read_link_keys over slots [key, empty, key] yields the keys of slots {got} "
+                        f"({p.terminal} {p.value if p.terminal == 'raise' else ''}); must be [0, 2]: an empty slot is skipped, not the end of the table", func=m,
+                        trace=p.trace(16))
